@@ -9,6 +9,7 @@ import (
 	"context"
 	"fmt"
 	"strings"
+	"time"
 
 	"github.com/jig/lisp"
 	. "github.com/jig/lisp/types"
@@ -48,12 +49,65 @@ var npPrograms = []string{
 	"(try (throw (with-meta {:a 1} {:m 2})) (catch e (meta e)))",
 	"(json-encode (with-meta {:a [1 2]} {:m 1}))", "(json-decode \"{\")", "(json-decode \"[1, 2\")", "(unbase64 \"!!!\")",
 	"(read-string \"(\")", "(read-string \"\")", "(eval (read-string \"(\"))", "(str (atom (atom nil)))", "(pr-str (future 1))",
+	// an error raised inside a callback travels through the builtin that applied it, whose CALL FORM was built by a macro /
+	// by eval / by apply (it has no source position; the program text is anonymous: no module either)
+	"(->> [1 2 3] (map (fn [x] (+ x \"a\"))))", "(-> (atom 0) (swap! (fn [x] (nth [] 3))))", "(-> {:k 1} (update :k (fn [x] (undefined-z))))",
+	"(->> [1] (map (fn [x] (throw {:x x}))))", "(eval (list 'map (fn [x] (throw x)) [1]))", "(eval (list 'swap! (atom 0) (fn [x] (nth [] 3))))",
+	"(do (defmacro via (fn [& form] form)) (via map (fn [x] (+ x \"a\")) [1]))", "(do (defmacro via (fn [& form] `(do ~form))) (via update {:k 1} :k (fn [x] (nth [] 9))))",
+	"(apply map [(fn [x] (nth [] 3)) [1]])", "(->> [1] (map (fn [x] (->> [2] (map (fn [y] (throw y)))))))", "(-> 1 (throw))", "(->> \"s\" (+ 1))", "(-> (future (nth [] 1)) (deref))",
+	"(->> [[1]] (map (fn [v] (->> v (map (fn [x] (assert false)))))))", "(do (defmacro m2 (fn [f] (list 'map f [1 2]))) (m2 (fn [x] (undefined-q x))))", "(->> (read-string \"(nth [] 2)\") (eval))",
 	"(reduce + [])", "(reduce (fn [] 1) [1 2])", "(some 5 [1])", "(every? 5 [1])", "(memoize 5)", "((memoize (fn [x] x)))",
+}
+
+// programs run under a REAL deadline a few milliseconds away: they enter `try` forms (and everything else) again and
+// again until the deadline passes, so some form is entered in its last microseconds
+var npDeadlinePrograms = []string{
+	"(do (def tl (fn [n] (do (try (+ n 1) (catch e nil)) (tl (+ n 1))))) (tl 0))",
+	"(do (def tl (fn [n] (try (if (< n 0) (throw n) (tl (+ n 1))) (catch e (tl 0))))) (tl 0))",
+	"(do (def tl (fn [n] (do (try (throw n) (catch e e) (finally (+ 1 1))) (tl (+ n 1))))) (tl 0))",
+	"(do (def tl (fn [n] (do (try (try (nth [] 1) (catch e (throw e))) (catch e2 nil)) (tl (+ n 1))))) (tl 0))",
+	"(do (def tl (fn [n] (do (deref (future (try n (catch e nil)))) (tl (+ n 1))))) (tl 0))",
+	"(do (def tl (fn [n] (do (map (fn [x] (try x (catch e nil))) [1 2 3]) (swap! (atom 0) (fn [x] (try x (finally nil)))) (tl (+ n 1))))) (tl 0))",
+}
+
+func (e *noPanicEngine) runDeadline(f []string) string {
+	var ms, p int
+	if _, err := fmt.Sscanf(f[1]+" "+f[2], "%d %d", &ms, &p); err != nil || p < 0 || p >= len(npDeadlinePrograms) || ms < 1 || ms > 500 {
+		return "bad-case"
+	}
+	ec := &evalCase{}
+	env, err := childEnv(ec)
+	if err != nil {
+		return "setup-error"
+	}
+	ast, err := lisp.READ(npDeadlinePrograms[p], nil, env)
+	if err != nil {
+		return "read-error"
+	}
+	for rep := 0; rep < 4; rep++ {
+		ctx, cancel := context.WithTimeout(context.Background(), time.Duration(ms)*time.Millisecond+time.Duration(rep*137)*time.Microsecond)
+		o := safeRunInline(func() string {
+			if _, err := lisp.EVAL(ctx, ast, env); err != nil {
+				return "err"
+			}
+			return "ok"
+		})
+		cancel()
+		if strings.HasPrefix(o, "PANIC") || strings.HasPrefix(o, "HANG") {
+			return o + " in " + npDeadlinePrograms[p] + " under a deadline"
+		}
+	}
+	return "err"
 }
 
 func (e *noPanicEngine) generate(r *rng, n int, tier string, emit func(string)) {
 	for _, p := range npPrograms {
 		emit("prog " + p)
+	}
+	for p := range npDeadlinePrograms {
+		for _, ms := range []int{2, 5, 9, 14, 20} {
+			emit(fmt.Sprintf("dl %d %d", ms, p))
+		}
 	}
 	for _, b := range allBuiltins {
 		emit("call " + b)
@@ -75,6 +129,9 @@ func (e *noPanicEngine) run(payload string) string {
 		src = payload[5:]
 	} else {
 		f := strings.Fields(payload)
+		if len(f) == 3 && f[0] == "dl" {
+			return e.runDeadline(f)
+		}
 		if len(f) < 2 || f[0] != "call" {
 			return "bad-case"
 		}
